@@ -32,12 +32,13 @@ Section ElGamal.
   Lemma gadd_cancel_r a b : gsub (gadd a b) b = a.
   Proof. unfold gsub. rewrite <- gadd_assoc, gadd_opp. apply gadd_0_r. Qed.
 
-  (** of_N: the scalar denoted by a natural number (C::scalar_from_u64). *)
+  (** of_N: the scalar denoted by a natural number (C::scalar_from_u64).  One recursive call per
+      constructor: a duplicated call would make conversion checks exponential in the bit length. *)
   Fixpoint f_of_pos (p : positive) : F :=
     match p with
     | xH => f1
-    | xO p' => fadd (f_of_pos p') (f_of_pos p')
-    | xI p' => fadd f1 (fadd (f_of_pos p') (f_of_pos p'))
+    | xO p' => fmul (fadd f1 f1) (f_of_pos p')
+    | xI p' => fadd f1 (fmul (fadd f1 f1) (f_of_pos p'))
     end.
   Definition f_of_N (n : N) : F := match n with N0 => f0 | Npos p => f_of_pos p end.
 
@@ -127,7 +128,8 @@ Section ElGamal.
 
   (** [EncryptedAmount] = (low, high) 32-bit chunks; [join] = 2^32 * hi + lo. *)
   Definition enc_amount := (cipher * cipher)%type.
-  Definition join (e : enc_amount) : cipher := combine (scale (f_of_N (2 ^ 32)) (snd e)) (fst e).
+  Definition two32 : F := f_of_N (2 ^ 32).
+  Definition join (e : enc_amount) : cipher := combine (scale two32 (snd e)) (fst e).
   Definition aggregate (l r : enc_amount) : enc_amount := (combine (fst l) (fst r), combine (snd l) (snd r)).
 
   Theorem join_denotes sk lo hi klo khi :
@@ -135,7 +137,7 @@ Section ElGamal.
     = smul (f_of_N (lo + 2 ^ 32 * hi)) h.
   Proof.
     unfold join; cbn [fst snd]. rewrite decrypt_combine, decrypt_scale, !encrypt_exp_decrypt.
-    rewrite <- smul_mul, <- smul_add_l, f_of_N_add, f_of_N_mul. f_equal. ring.
+    rewrite <- smul_mul, <- smul_add_l, f_of_N_add, f_of_N_mul. fold two32. f_equal. ring.
   Qed.
 
   Theorem aggregate_chunkwise sk a b :
@@ -166,8 +168,9 @@ Section ElGamal.
     exists e, encrypt_amount (pk_of sk) x klo khi = Some e /\ decrypt_amount sk e = Some x.
   Proof.
     intros Hx.
-    destruct (chunks_roundtrip_checked 32 x) as (cs & Hcs & Hlen & Hb & Hback); try assumption.
-    { vm_compute; tauto. } { reflexivity. }
+    assert (In32 : In 32%N chunk_sizes) by (unfold chunk_sizes; cbn [In]; tauto).
+    assert (Lt32 : (32 < 64)%N) by reflexivity.
+    destruct (chunks_roundtrip_checked 32 x In32 Lt32 Hx) as (cs & Hcs & Hlen & Hb & Hback).
     unfold encrypt_amount. rewrite Hcs.
     destruct cs as [|lo [|hi [|? ?]]]; try discriminate Hlen.
     eexists; split; [reflexivity|].
@@ -175,30 +178,6 @@ Section ElGamal.
     inversion Hb as [|? ? Hlo Hb']; subst. inversion Hb' as [|? ? Hhi _]; subst.
     assert (M : mask 32 = (2 ^ 32 - 1)%N) by reflexivity. rewrite M in *.
     rewrite !dlog_spec by lia. exact Hback.
-  Qed.
-
-  (** Transfers: plaintext bookkeeping of make_transfer_data / make_sec_to_pub_transfer_data:
-      [if s < a { return None }], [s' = s - a], both re-chunked. *)
-  Definition transfer_plain (s a : N) : option (list N * list N) :=
-    if (s <? a)%N then None else
-    match u64_to_chunks_checked 32 (s - a), u64_to_chunks_checked 32 a with
-    | Some r, Some t => Some (r, t)
-    | _, _ => None
-    end.
-
-  Theorem transfer_none_if_exceeds s a : (s < a)%N -> transfer_plain s a = None.
-  Proof. intros H. unfold transfer_plain. destruct (N.ltb_spec s a); [reflexivity|lia]. Qed.
-
-  Theorem transfer_conserves s a : (s < W64)%N -> (a <= s)%N ->
-    exists r t, transfer_plain s a = Some (r, t)
-      /\ chunks_to_u64_checked 32 r = Some (s - a)%N
-      /\ chunks_to_u64_checked 32 t = Some a
-      /\ (s - a + a = s)%N.
-  Proof.
-    intros Hs Ha. unfold transfer_plain. destruct (N.ltb_spec s a); [lia|].
-    destruct (chunks_roundtrip_checked 32 (s - a)) as (r & Hr & _ & _ & Hbr); try (vm_compute; tauto); try reflexivity; [lia|].
-    destruct (chunks_roundtrip_checked 32 a) as (t & Ht & _ & _ & Hbt); try (vm_compute; tauto); try reflexivity; [lia|].
-    exists r, t. rewrite Hr, Ht. repeat split; try assumption. lia.
   Qed.
 
   (** The accounting equation that the enc_trans sigma statement asserts:
@@ -212,3 +191,31 @@ Section ElGamal.
     intros Ht Hr Ha. rewrite !join_denotes, Ht, Hr, <- smul_add_l, <- f_of_N_add. f_equal. f_equal. lia.
   Qed.
 End ElGamal.
+
+(** Transfers: plaintext bookkeeping of make_transfer_data / make_sec_to_pub_transfer_data:
+    [if s < a { return None }], [s' = s - a], both re-chunked. *)
+Definition transfer_plain (s a : N) : option (list N * list N) :=
+  if (s <? a)%N then None else
+  match u64_to_chunks_checked 32 (s - a), u64_to_chunks_checked 32 a with
+  | Some r, Some t => Some (r, t)
+  | _, _ => None
+  end.
+
+Theorem transfer_none_if_exceeds s a : (s < a)%N -> transfer_plain s a = None.
+Proof. intros H. unfold transfer_plain. destruct (N.ltb_spec s a); [reflexivity|lia]. Qed.
+
+Theorem transfer_conserves s a : (s < W64)%N -> (a <= s)%N ->
+  exists r t, transfer_plain s a = Some (r, t)
+    /\ chunks_to_u64_checked 32 r = Some (s - a)%N
+    /\ chunks_to_u64_checked 32 t = Some a
+    /\ (s - a + a = s)%N.
+Proof.
+  intros Hs Ha. unfold transfer_plain. destruct (N.ltb_spec s a); [lia|].
+  assert (In32 : In 32%N chunk_sizes) by (unfold chunk_sizes; cbn [In]; tauto).
+  assert (Lt32 : (32 < 64)%N) by reflexivity.
+  destruct (chunks_roundtrip_checked 32 (s - a) In32 Lt32) as (r & Hr & _ & _ & Hbr); [lia|].
+  destruct (chunks_roundtrip_checked 32 a In32 Lt32) as (t & Ht & _ & _ & Hbt); [lia|].
+  exists r, t. rewrite Hr, Ht. repeat split; try assumption. lia.
+Qed.
+
+
